@@ -48,7 +48,31 @@ pub fn build_history(rng: &mut Rng, n: usize) -> Vec<Call> {
     while h.len() < n {
         let (ev, s) = exprs[rng.below(exprs.len())].clone();
         let pool = ph_pool(ev);
-        match rng.below(5) {
+        match rng.below(6) {
+            5 => {
+                // iterative functions on neighbouring arguments back to back: a warm start or memo
+                // carried from one call to the next shows in the last digits
+                let templates = ["w(@)", "lambert_w(@)", "@!", "ilog(@,2)", "sqrt(@)", "exp(@/100)", "ln(@)", "@^0.5", "root(3,@)", "w(@)+w(@*1.5)", "gcd(@,12)", "lcm(@,18)", "avg(@,@+1)", "med(@,1,@)"];
+                let t = *rng.pick(&templates[..]);
+                let base = *rng.pick(&[0.2f64, 0.11, 7.0, 10.0, 25.0, 40.0, 1000.0, 1500.0, 3.0, 12.0][..]);
+                for f in [1.0, 1.4, 0.7, 1.9, 1.0] {
+                    let x = base * f;
+                    let ph = match ev {
+                        Ev::F64 => Val::F(x),
+                        Ev::I64 => Val::I(x as i64 + 1),
+                        Ev::Dec => Val::D(crate::val::DecV { neg: false, mant: (x * 1000.0).round() as u128, scale: 3 }),
+                        Ev::Cpx => Val::C(x, 0.0),
+                        Ev::Num => {
+                            if f == 1.0 {
+                                Val::NI(x as i64 + 1)
+                            } else {
+                                Val::NF(x)
+                            }
+                        }
+                    };
+                    h.push(Call { ev, expr: t.to_string(), ph });
+                }
+            }
             4 => {
                 // placeholders that compare equal (or hash alike) but are different values: a cache keyed
                 // on == or on the numeric value would confuse them
